@@ -68,12 +68,12 @@ type ValKeys struct {
 // WorldCfg fixes the shape of a world. Everything else is derived from Seed.
 type WorldCfg struct {
 	Seed          int64
-	NumVals       int   // genesis validators
-	ExtraVals     int   // keys prepared for validators created later by tx
-	NumUsers      int   // funded user accounts
-	MaxValidators uint32 // staking param
+	NumVals       int     // genesis validators
+	ExtraVals     int     // keys prepared for validators created later by tx
+	NumUsers      int     // funded user accounts
+	MaxValidators uint32  // staking param
 	ValStake      []int64 // self delegation in whole TRB per genesis validator (cycled)
-	UserBalance   int64  // loya
+	UserBalance   int64   // loya
 	VotingPeriod  time.Duration
 	UnbondingTime time.Duration
 	GenesisTime   time.Time
@@ -167,6 +167,7 @@ type AppOpts struct {
 	MinGasPrice string
 	IAVLCache   int
 	Pruning     string
+	PanicLog    *PanicLog // when set, the app logs through a logger that records recovered handler panics
 }
 
 // NewApp builds the real application with observation wrappers installed before the store is sealed.
@@ -201,7 +202,11 @@ func NewApp(o AppOpts, hooks *Hooks) (*app.App, func()) {
 	if o.MinGasPrice != "" {
 		bopts = append(bopts, baseapp.SetMinGasPrices(o.MinGasPrice))
 	}
-	a := app.New(log.NewNopLogger(), db, nil, false, opts, bopts...)
+	var logger log.Logger = log.NewNopLogger()
+	if o.PanicLog != nil {
+		logger = capLogger{o.PanicLog}
+	}
+	a := app.New(logger, db, nil, false, opts, bopts...)
 	if hooks != nil {
 		hooks.install(a)
 	}
